@@ -2,7 +2,7 @@ import Pearl.Proofs.FsLemmas
 /-
 C12: durability ordering, on the file / trace layer (L6, `Pearl/Model/Fs.lean`).
 
-All statements are about `Fs.run dup limit klen unc ops`: the state and the trace (list of file
+All statements are about `Fs.run dup limit klen unc rs ops`: the state and the trace (list of file
 events in the order the implementation issues them at quiescence) after `init` on an empty directory
 and an arbitrary list `ops` of driver-level operations, for any dirty-bytes limit, key length and
 either behaviour of the explicit `fsync` (`unc`).
@@ -12,22 +12,22 @@ open Fs
 
 /-- For every blob file, the first three events on it are: create, the 20-byte blob header at offset 0,
     and an fsync publishing those 20 bytes.  (`proj id t` = the events of `t` on blob file `id`.) -/
-theorem header_synced_before_first_record (dup : Bool) (limit klen : Nat) (unc : Bool) (ops : List FsOp)
+theorem header_synced_before_first_record (dup : Bool) (limit klen : Nat) (unc rs : Bool) (ops : List FsOp)
     (id : Nat) :
-    proj id (run dup limit klen unc ops).2 = [] ∨ hdr3 id <+: proj id (run dup limit klen unc ops).2 := by
-  have h := (run_diskInv dup limit klen unc ops).hdr id
-  cases hf : (run dup limit klen unc ops).1.disk.files id with
+    proj id (run dup limit klen unc rs ops).2 = [] ∨ hdr3 id <+: proj id (run dup limit klen unc rs ops).2 := by
+  have h := (run_diskInv dup limit klen unc rs ops).hdr id
+  cases hf : (run dup limit klen unc rs ops).1.disk.files id with
   | none => exact Or.inl (h.1 hf)
   | some f => exact Or.inr (h.2 (by simp [hf]))
 
 /-- … and they precede every record write to that file (any write that is not the header write at 0):
     the three events are already in the part of the trace before it.  The operation that wrote the record
     returns (acknowledges) after its write, so the header is durable before any acknowledgement. -/
-theorem record_write_after_header_sync (dup : Bool) (limit klen : Nat) (unc : Bool) (ops : List FsOp)
+theorem record_write_after_header_sync (dup : Bool) (limit klen : Nat) (unc rs : Bool) (ops : List FsOp)
     (id off len : Nat) (pre post : List Event)
-    (h : (run dup limit klen unc ops).2 = pre ++ Event.write (.blob id) off len :: post) (hoff : off ≠ 0) :
+    (h : (run dup limit klen unc rs ops).2 = pre ++ Event.write (.blob id) off len :: post) (hoff : off ≠ 0) :
     hdr3 id <+: proj id pre := by
-  rcases header_synced_before_first_record dup limit klen unc ops id with h0 | h1
+  rcases header_synced_before_first_record dup limit klen unc rs ops id with h0 | h1
   · rw [h, proj_append] at h0
     simp [proj, Event.file] at h0
   · rw [h] at h1
@@ -36,57 +36,57 @@ theorem record_write_after_header_sync (dup : Bool) (limit klen : Nat) (unc : Bo
 /-- Every rewrite of an index header with the `written` bit (the moment the index file becomes valid,
     recording `blob_size = bs`) is preceded by an fsync of the blob file that published at least `bs`,
     with no write to the blob file in between, and the next event on the index file is its own fsync. -/
-theorem index_written_after_blob_sync (dup : Bool) (limit klen : Nat) (unc : Bool) (ops : List FsOp)
+theorem index_written_after_blob_sync (dup : Bool) (limit klen : Nat) (unc rs : Bool) (ops : List FsOp)
     (i bs : Nat) (pre post : List Event)
-    (h : (run dup limit klen unc ops).2 = pre ++ Event.idxHeader i bs true :: post) :
+    (h : (run dup limit klen unc rs ops).2 = pre ++ Event.idxHeader i bs true :: post) :
     (∃ p1 p2 n, pre = p1 ++ Event.sync (.blob i) n :: p2 ∧ bs ≤ n ∧
         ∀ e ∈ p2, isWriteOn (.blob i) e = false) ∧
       (∃ q1 q2 n, post = q1 ++ Event.sync (.index i) n :: q2 ∧ ∀ e ∈ q1, e.file ≠ .index i) :=
-  (run_diskInv dup limit klen unc ops).idx pre post i bs h
+  (run_diskInv dup limit klen unc rs ops).idx pre post i bs h
 
 /-- After a successful `close_active` (foreground or background) there is no active blob and the
     blob that was closed has `synced = size`. -/
-theorem no_dirty_after_close_active (dup : Bool) (limit klen : Nat) (unc : Bool) (ops : List FsOp) (a : Blob)
-    (ho : (run dup limit klen unc ops).1.isOpen = true)
-    (ha : (run dup limit klen unc ops).1.store.active = some a) :
-    let s' := (run dup limit klen unc (ops ++ [.closeActive])).1
+theorem no_dirty_after_close_active (dup : Bool) (limit klen : Nat) (unc rs : Bool) (ops : List FsOp) (a : Blob)
+    (ho : (run dup limit klen unc rs ops).1.isOpen = true)
+    (ha : (run dup limit klen unc rs ops).1.store.active = some a) :
+    let s' := (run dup limit klen unc rs (ops ++ [.closeActive])).1
     s'.store.active = none ∧ ∃ f, s'.disk.files a.id = some f ∧ f.synced = f.size := by
   intro s'
-  have hs' : s' = (emit (run dup limit klen unc ops).1 .closeActive).1 := by
+  have hs' : s' = (emit (run dup limit klen unc rs ops).1 .closeActive).1 := by
     simp only [s', run_snoc]
   have h := closeActive_dirty_zero ho ha
   rw [← hs'] at h
   have hex : (s'.disk.files a.id).isSome = true := by
     rw [hs']
-    exact (emit_stepOK (run_inv dup limit klen unc ops).coh _).grow _
-      (file_of_active (run_full dup limit klen unc ops) ha)
+    exact (emit_stepOK (run_inv dup limit klen unc rs ops).coh _).grow _
+      (file_of_active (run_full dup limit klen unc rs ops) ha)
   obtain ⟨f, hf⟩ := Option.isSome_iff_exists.1 hex
-  exact ⟨h.2, f, hf, synced_eq_size_of_dirty_zero (run_diskInv dup limit klen unc _).counters h.1 f hf⟩
+  exact ⟨h.2, f, hf, synced_eq_size_of_dirty_zero (run_diskInv dup limit klen unc rs _).counters h.1 f hf⟩
 
 /-- With the explicit `fsync` syncing unconditionally (/repo since 2b9bef3) the active blob has
     `synced = size` after it. -/
-theorem no_dirty_after_explicit_fsync (dup : Bool) (limit klen : Nat) (ops : List FsOp) (a : Blob)
-    (ho : (run dup limit klen true ops).1.isOpen = true)
-    (ha : (run dup limit klen true ops).1.store.active = some a) :
-    let s' := (run dup limit klen true (ops ++ [.fsync])).1
+theorem no_dirty_after_explicit_fsync (dup : Bool) (limit klen : Nat) (rs : Bool) (ops : List FsOp) (a : Blob)
+    (ho : (run dup limit klen true rs ops).1.isOpen = true)
+    (ha : (run dup limit klen true rs ops).1.store.active = some a) :
+    let s' := (run dup limit klen true rs (ops ++ [.fsync])).1
     s'.store.active = some a ∧ ∃ f, s'.disk.files a.id = some f ∧ f.synced = f.size := by
   intro s'
-  have hs' : s' = (emit (run dup limit klen true ops).1 .fsync).1 := by
+  have hs' : s' = (emit (run dup limit klen true rs ops).1 .fsync).1 := by
     simp only [s', run_snoc]
-  have h := fsync_dirty_zero ho ha (run_config dup limit klen true ops).2.2
+  have h := fsync_dirty_zero ho ha (run_config dup limit klen true rs ops).2.2.1
   rw [← hs'] at h
   have hex : (s'.disk.files a.id).isSome = true := by
     rw [hs']
-    exact (emit_stepOK (run_inv dup limit klen true ops).coh _).grow _
-      (file_of_active (run_full dup limit klen true ops) ha)
+    exact (emit_stepOK (run_inv dup limit klen true rs ops).coh _).grow _
+      (file_of_active (run_full dup limit klen true rs ops) ha)
   obtain ⟨f, hf⟩ := Option.isSome_iff_exists.1 hex
-  exact ⟨h.2, f, hf, synced_eq_size_of_dirty_zero (run_diskInv dup limit klen true _).counters h.1 f hf⟩
+  exact ⟨h.2, f, hf, synced_eq_size_of_dirty_zero (run_diskInv dup limit klen true rs _).counters h.1 f hf⟩
 
 /-- For the code before that repair (`Storage::fsyncdata` → `Inner::fsyncdata`, which gives up while the
     dirty bytes are within the limit) the statement is false: one 10-byte write, then `fsync`, with the
     default limit of 32 MiB leaves 79 un-synced bytes.  Replay: `w 0000000a 5 - 10 1`, `fsync`, `dirty`. -/
 theorem explicit_fsync_refuted_current :
-    let s' := (run true 33554432 4 false [.write 10 5 none ⟨10, 1⟩ false, .fsync]).1
+    let s' := (run true 33554432 4 false true [.write 10 5 none ⟨10, 1⟩ false, .fsync]).1
     s'.activeDirty = some 79 ∧
       ¬ ∀ a, s'.store.active = some a → ∀ f, s'.disk.files a.id = some f → f.synced = f.size := by
   refine ⟨by decide, ?_⟩
@@ -95,41 +95,57 @@ theorem explicit_fsync_refuted_current :
     { size := 99, synced := 20, appendMode := false } (by decide)
   simp at this
 
-/-- `quiescent_dirty_bounded` as asked ("at every quiescent state the active blob's dirty bytes ≤ limit")
-    is FALSE: a closed blob collects deletion markers that nothing syncs (the dump they trigger is deferred),
-    and `restore_active` makes it the active blob as it is.  Witness with limit 0
-    (`cfg dirty=0`, `w 0000000a 5 - 10 1`, `close_active`, `d 0000000a 9 - 1`, `restore_active`, `dirty`):
-    69 dirty bytes in the active blob at a quiescent state. -/
-theorem quiescent_dirty_bounded_refuted :
-    let s := (run true 0 4 true
+/-- At every quiescent state (after each driver-level step, background sync completed) the active blob's
+    dirty bytes are at most the limit, for ALL operation sequences, with the code as it is since /repo 0ede233
+    (`restoreSyncsOverLimit = true`: `restore_active_blob` syncs the restored blob when it is over the limit).
+    Exactly the limit is allowed: `too_many_dirty_bytes` is `>`. -/
+theorem quiescent_dirty_bounded (dup : Bool) (limit klen : Nat) (unc : Bool) (ops : List FsOp) (a : Blob)
+    (ha : (run dup limit klen unc true ops).1.store.active = some a) :
+    (run dup limit klen unc true ops).1.dirtyOf a.id ≤ limit := by
+  have := run_bounded dup limit klen unc true ops (Or.inl rfl) a ha
+  rwa [(run_config dup limit klen unc true ops).2.1] at this
+
+/-- Before that repair (`restoreSyncsOverLimit = false`, /repo up to 6bfe6df) the statement was FALSE:
+    a closed blob collects deletion markers that nothing syncs (the dump they trigger is deferred), and
+    `restore_active` made it the active blob as it was.  Witness with limit 0
+    (`cfg dirty=0`, `w 0000000a 5 - 10 1`, `close_active`, `d 0000000a 9 - 1`, `restore_active`, `dirty`;
+    `trace_scripts/h06-dirty-after-restore.txt`, add `restorefix=0` to the `cfg` line for the model):
+    69 dirty bytes in the active blob at a quiescent state.  Confirmed on the real library and repaired. -/
+theorem quiescent_dirty_bounded_refuted_before_fix :
+    let s := (run true 0 4 true false
       [.write 10 5 none ⟨10, 1⟩ false, .closeActive, .delete 10 9 none true, .restoreActive]).1
     s.activeDirty = some 69 ∧ s.limit = 0 := by
   decide
 
-/-- The precise bound: as long as `restore_active` is not used, at every quiescent state the active
-    blob's dirty bytes are at most the limit (exactly the limit is allowed: `too_many_dirty_bytes` is `>`).
-    Writes and deletes re-establish the bound whatever the state before (`dirty_bounded_after_delete`). -/
-theorem quiescent_dirty_bounded_partial (dup : Bool) (limit klen : Nat) (unc : Bool) (ops : List FsOp)
+/-- the same run with the repair: `restore_active` emits one `sync` of blob 0 publishing its 168 bytes -/
+theorem restore_syncs_over_limit_witness :
+    let ops : List FsOp := [.write 10 5 none ⟨10, 1⟩ false, .closeActive, .delete 10 9 none true]
+    let s := (run true 0 4 true true ops).1
+    (emit s .restoreActive).2 = [.sync (.blob 0) 168] ∧ (emit s .restoreActive).1.activeDirty = some 0 := by
+  decide +kernel
+
+/-- the bound of the code before the repair: it held as long as `restore_active` was not used -/
+theorem quiescent_dirty_bounded_partial (dup : Bool) (limit klen : Nat) (unc rs : Bool) (ops : List FsOp)
     (h : ∀ op ∈ ops, op.isRestore = false) (a : Blob)
-    (ha : (run dup limit klen unc ops).1.store.active = some a) :
-    (run dup limit klen unc ops).1.dirtyOf a.id ≤ limit := by
-  have := run_bounded dup limit klen unc ops h a ha
-  rwa [(run_config dup limit klen unc ops).2.1] at this
+    (ha : (run dup limit klen unc rs ops).1.store.active = some a) :
+    (run dup limit klen unc rs ops).1.dirtyOf a.id ≤ limit := by
+  have := run_bounded dup limit klen unc rs ops (Or.inr h) a ha
+  rwa [(run_config dup limit klen unc rs ops).2.1] at this
 
 /-- a delete re-establishes the bound from any reachable state (so does a write that is not rejected as a
     duplicate, see `keepsB_writeP`) -/
-theorem dirty_bounded_after_delete (dup : Bool) (limit klen : Nat) (unc : Bool) (ops : List FsOp)
+theorem dirty_bounded_after_delete (dup : Bool) (limit klen : Nat) (unc rs : Bool) (ops : List FsOp)
     (k : Key) (ts : Nat) (m : Option Meta) (oip : Bool) (a : Blob)
-    (ho : (run dup limit klen unc ops).1.isOpen = true)
-    (ha : (run dup limit klen unc (ops ++ [.delete k ts m oip])).1.store.active = some a) :
-    (run dup limit klen unc (ops ++ [.delete k ts m oip])).1.dirtyOf a.id ≤ limit := by
-  have hc := (run_inv dup limit klen unc ops).coh
-  have hb : Bounded (run dup limit klen unc (ops ++ [.delete k ts m oip])).1 := by
+    (ho : (run dup limit klen unc rs ops).1.isOpen = true)
+    (ha : (run dup limit klen unc rs (ops ++ [.delete k ts m oip])).1.store.active = some a) :
+    (run dup limit klen unc rs (ops ++ [.delete k ts m oip])).1.dirtyOf a.id ≤ limit := by
+  have hc := (run_inv dup limit klen unc rs ops).coh
+  have hb : Bounded (run dup limit klen unc rs (ops ++ [.delete k ts m oip])).1 := by
     rw [run_snoc]
     simp only [emit, ho, if_true, prog]
     exact estB_deleteP k ts m oip _ hc
   have := hb a ha
-  rwa [(run_config dup limit klen unc _).2.1] at this
+  rwa [(run_config dup limit klen unc rs _).2.1] at this
 
 /-- Found while modelling `Storage::close`: it dumps (and so fsyncs) the active blob only.  A deletion marker
     appended to a *closed* blob is fsynced by the deferred index dump alone (60–180 s by default); a clean
@@ -137,7 +153,7 @@ theorem dirty_bounded_after_delete (dup : Bool) (limit klen : Nat) (unc : Bool) 
     without any fsync.  Replay: `trace_scripts/h09-close-leaves-closed-blob-dirty.txt`. -/
 theorem clean_close_leaves_unsynced_bytes :
     let ops : List FsOp := [.write 10 5 none ⟨10, 1⟩ false, .closeActive, .delete 10 9 none true, .close]
-    let s := (run true 100000 4 true ops).1
+    let s := (run true 100000 4 true true ops).1
     s.isOpen = false ∧ (s.disk.files 0).map (·.dirty) = some 69 ∧
       (emit s (.open false)).2 = [.open (.blob 0), .open (.index 0)] ∧
       ((emit s (.open false)).1.disk.files 0).map (·.dirty) = some 0 := by
@@ -154,7 +170,7 @@ def C12Demo.ops : List FsOp :=
 -- Cb0 Wb0:0:20 Sb0:20 Wb0:20:79 Wb0:99:69 Wb0:168:5000 Sb0:5168 | Sb0:5168 Sb0:5168 Ci0 Wi0:0:* Wi0:hdr:bs=5168:w=1 Si0
 -- | Cb1 Wb1:0:20 Sb1:20 Wb1:20:69 Wb0:5168:69 | Sb1:89 Ci1 Wi1:0:* Wi1:hdr:bs=89:w=1 Si1 Ob0 Oi0 Ob1 Oi1
 --   Sb0:5237 Ci0 Wi0:0:* Wi0:hdr:bs=5237:w=1 Si0
-example : (run true 100 4 true C12Demo.ops).2 =
+example : (run true 100 4 true true C12Demo.ops).2 =
     [.create (.blob 0), .write (.blob 0) 0 20, .sync (.blob 0) 20,
      .write (.blob 0) 20 79, .write (.blob 0) 99 69, .write (.blob 0) 168 5000, .sync (.blob 0) 5168,
      .sync (.blob 0) 5168, .sync (.blob 0) 5168, .create (.index 0), .write (.index 0) 0 0,
@@ -167,17 +183,18 @@ example : (run true 100 4 true C12Demo.ops).2 =
      .sync (.index 0) 0] := by decide +kernel
 
 -- blob 1 exists in that run and its projection starts with the three header events
-example : proj 1 (run true 100 4 true C12Demo.ops).2 ≠ [] := by decide +kernel
+example : proj 1 (run true 100 4 true true C12Demo.ops).2 ≠ [] := by decide +kernel
 -- there are header rewrites in the trace (the hypothesis of `index_written_after_blob_sync` is met)
-example : Event.idxHeader 0 5237 true ∈ (run true 100 4 true C12Demo.ops).2 := by decide +kernel
+example : Event.idxHeader 0 5237 true ∈ (run true 100 4 true true C12Demo.ops).2 := by decide +kernel
 -- the hypotheses of `no_dirty_after_close_active` hold on a run, and the closed file exists with dirty bytes before
-example : (run true 100000 4 true [.write 10 5 none ⟨10, 1⟩ false]).1.activeDirty = some 79 := by decide
-example : ((run true 100000 4 true [.write 10 5 none ⟨10, 1⟩ false, .closeActive]).1.disk.files 0).map (·.dirty)
+example : (run true 100000 4 true true [.write 10 5 none ⟨10, 1⟩ false]).1.activeDirty = some 79 := by decide
+example : ((run true 100000 4 true true [.write 10 5 none ⟨10, 1⟩ false, .closeActive]).1.disk.files 0).map (·.dirty)
     = some 0 := by decide
 -- the repaired explicit fsync does sync below the limit
-example : (run true 33554432 4 true [.write 10 5 none ⟨10, 1⟩ false, .fsync]).1.activeDirty = some 0 := by decide
--- dirty bytes exactly at the limit stay un-synced (79 = limit), one more byte of limit less and they are synced
-example : (run true 79 4 true [.write 10 5 none ⟨10, 1⟩ false]).1.activeDirty = some 79 := by decide
-example : (run true 78 4 true [.write 10 5 none ⟨10, 1⟩ false]).1.activeDirty = some 0 := by decide
+example : (run true 33554432 4 true true [.write 10 5 none ⟨10, 1⟩ false, .fsync]).1.activeDirty = some 0 := by decide
+-- dirty bytes exactly at the limit stay un-synced (79 = limit), one byte of limit less and they are synced;
+-- the same boundary for `restore_active` (69 marker bytes): `trace_scripts/h10-restore-over-limit.txt`
+example : (run true 79 4 true true [.write 10 5 none ⟨10, 1⟩ false]).1.activeDirty = some 79 := by decide
+example : (run true 78 4 true true [.write 10 5 none ⟨10, 1⟩ false]).1.activeDirty = some 0 := by decide
 
 end Pearl
